@@ -176,6 +176,34 @@ pub fn gen_c07(out: &mut Out, rng: &mut Rng, thorough: bool) {
             monitor_line(out, &format!("srv {kind} svc={} r=d{}", svc_tok(&svc), hex_raw(&data)));
         }
     }
+    // every request variant × every service outcome × the units at the borders of the address
+    // classes (broadcast, first and last device, first reserved, the TCP default), both framings;
+    // a second request behind it shows whether the first one's treatment leaked
+    for kind in ["tcp", "rtu"] {
+        for unit in [0x00u8, 0x01, 0xF7, 0xF8, 0xFF] {
+            for &fc in MODELLED_REQ {
+                let req = super::client::request_with_code(rng, fc, false);
+                let Some(reqb) = spec::request_bytes(&req) else { continue };
+                if reqb.len() > 253 {
+                    continue;
+                }
+                for outcome in 0..3 {
+                    let first = match outcome {
+                        0 => Svc::Reply(answer_for(rng, &req)),
+                        1 => Svc::Exception(tokio_modbus::ExceptionCode::new(rng.exc_code())),
+                        _ => Svc::Decline,
+                    };
+                    if matches!(&first, Svc::Reply(r) if spec::response_bytes(r).is_none_or(|b| b.len() > 253)) {
+                        continue;
+                    }
+                    let mut data = frame(kind, rng.u16(), unit, &reqb);
+                    data.extend(frame(kind, rng.u16(), unit, &spec::request_bytes(&Request::ReadHoldingRegisters(7, 1)).unwrap()));
+                    let svc = [first, Svc::Reply(Response::ReadHoldingRegisters(vec![0xBEEF]))];
+                    monitor_line(out, &format!("srv {kind} svc={} r=d{}", svc_tok(&svc), hex_raw(&data)));
+                }
+            }
+        }
+    }
     let n = if thorough { 100_000 } else { 5_000 };
     for i in 0..n {
         let kind = if i % 2 == 0 { "tcp" } else { "rtu" };
